@@ -42,3 +42,69 @@ package config
 //@   ensures[C19] asset: (result == nil && c.ExperimentalRemoteAssetAPI) ==> c.GRPCAddress != "none"
 //@   ensures[C19] loglevels: result == nil ==> ((c.AccessLogLevel == "none" || c.AccessLogLevel == "all") && (c.LogTimezone == "UTC" || c.LogTimezone == "local" || c.LogTimezone == "none"))
 //@   loop 0 modifies mapof(duplicates)
+
+// ---------------------------------------------------------------------------------------
+// The flag front end (C19): config.get reads every setting from the flag / environment
+// variable of the same name as the YAML key and hands it to the newFromArgs parameter that
+// newFromArgs stores in the Config field carrying that YAML key. flagStr / flagInt /
+// flagBool / flagInt64 / flagDur are the uninterpreted values urfave/cli reports for a flag
+// name (how urfave/cli parses argv and the environment is library behaviour, assumed).
+
+//@ extern (*github.com/urfave/cli/v2.Context).String(ctx, name)
+//@   pure
+//@   ensures result == flagStr(ctx, name)
+//@ extern (*github.com/urfave/cli/v2.Context).Int(ctx, name)
+//@   pure
+//@   ensures result == flagInt(ctx, name)
+//@ extern (*github.com/urfave/cli/v2.Context).Int64(ctx, name)
+//@   pure
+//@   ensures result == flagInt64(ctx, name)
+//@ extern (*github.com/urfave/cli/v2.Context).Bool(ctx, name)
+//@   pure
+//@   ensures result == flagBool(ctx, name)
+//@ extern (*github.com/urfave/cli/v2.Context).Duration(ctx, name)
+//@   pure
+//@   ensures result == flagDur(ctx, name)
+//@ extern net.JoinHostPort(host, port)
+//@   pure
+//@   ensures result == joinHP(host, port)
+
+//@ func newFromArgs(dir string, maxSize int, storageMode string, zstdImplementation string, httpAddress string, grpcAddress string, profileAddress string, htpasswdFile string, maxQueuedUploads int, numUploaders int, minTLSVersion string, tlsCaFile string, tlsCertFile string, tlsKeyFile string, allowUnauthenticatedReads bool, idleTimeout time.Duration, hc *URLBackendConfig, grpcb *URLBackendConfig, gcs *GoogleCloudStorageConfig, ldap *LDAPConfig, s3 *S3CloudStorageConfig, azblob *AzBlobStorageConfig, disableHTTPACValidation bool, disableGRPCACDepsCheck bool, enableACKeyInstanceMangling bool, enableEndpointMetrics bool, httpMetricsPrefix bool, experimentalRemoteAssetAPI bool, httpReadTimeout time.Duration, httpWriteTimeout time.Duration, accessLogLevel string, logTimezone string, maxSizeHardLimit int, maxBlobSize int64, maxProxyBlobSize int64) (*Config, error)
+//@   serves C19 C14
+//@   noframe
+//@   ensures[C19] refused: result1 != nil ==> result0 == nil
+//@   ensures[C19] built: result1 == nil ==> result0 != nil
+//@   ensures[C19] storage: result1 == nil ==> (result0.Dir == dir && result0.MaxSize == maxSize && result0.MaxSizeHardLimit == maxSizeHardLimit && result0.StorageMode == storageMode && result0.ZstdImplementation == zstdImplementation)
+//@   ensures[C19] listeners: result1 == nil ==> (result0.HTTPAddress == httpAddress && result0.GRPCAddress == grpcAddress && result0.ProfileAddress == profileAddress)
+//@   ensures[C19] auth: result1 == nil ==> (result0.HtpasswdFile == htpasswdFile && result0.MinTLSVersion == minTLSVersion && result0.TLSCaFile == tlsCaFile && result0.TLSCertFile == tlsCertFile && result0.TLSKeyFile == tlsKeyFile && result0.AllowUnauthenticatedReads == allowUnauthenticatedReads && result0.LDAP == ldap)
+//@   ensures[C19] backends: result1 == nil ==> (result0.HTTPBackend == hc && result0.GRPCBackend == grpcb && result0.GoogleCloudStorage == gcs && result0.S3CloudStorage == s3 && result0.AzBlobConfig == azblob && result0.MaxQueuedUploads == maxQueuedUploads && result0.NumUploaders == numUploaders)
+//@   ensures[C19] switches: result1 == nil ==> (result0.DisableHTTPACValidation == disableHTTPACValidation && result0.DisableGRPCACDepsCheck == disableGRPCACDepsCheck && result0.EnableACKeyInstanceMangling == enableACKeyInstanceMangling && result0.EnableEndpointMetrics == enableEndpointMetrics && result0.HttpMetricsPrefix == httpMetricsPrefix && result0.ExperimentalRemoteAssetAPI == experimentalRemoteAssetAPI)
+//@   ensures[C19] timeouts: result1 == nil ==> (result0.IdleTimeout == idleTimeout && result0.HTTPReadTimeout == httpReadTimeout && result0.HTTPWriteTimeout == httpWriteTimeout)
+//@   ensures[C19] logging: result1 == nil ==> (result0.AccessLogLevel == accessLogLevel && result0.LogTimezone == logTimezone)
+//@   ensures[C19] limits: result1 == nil ==> (result0.MaxBlobSize == maxBlobSize && result0.MaxProxyBlobSize == maxProxyBlobSize)
+//@   call validateConfig#* asserts[C19] validated: arg0 == &c
+
+//@ func get(ctx *cli.Context) (*Config, error)
+//@   serves C19 C14
+//@   requires ctx != nil
+//@   noframe
+//@   call newFromArgs#* asserts[C19] storage: arg0 == flagStr(ctx, "dir") && arg1 == flagInt(ctx, "max_size") && arg2 == flagStr(ctx, "storage_mode") && arg3 == flagStr(ctx, "zstd_implementation") && arg32 == flagInt(ctx, "max_size_hard_limit")
+//@   call newFromArgs#* asserts[C19] http: flagStr(ctx, "http_address") != "" ==> arg4 == flagStr(ctx, "http_address")
+//@   call newFromArgs#* asserts[C19] httpdeprecated: flagStr(ctx, "http_address") == "" ==> arg4 == joinHP(flagStr(ctx, "host"), itoa(flagInt(ctx, "port")))
+//@   call newFromArgs#* asserts[C19] grpc: flagStr(ctx, "grpc_address") != "" ==> arg5 == flagStr(ctx, "grpc_address")
+//@   call newFromArgs#* asserts[C19] grpcdeprecated: (flagStr(ctx, "grpc_address") == "" && flagInt(ctx, "grpc_port") > 0) ==> arg5 == joinHP(flagStr(ctx, "host"), itoa(flagInt(ctx, "grpc_port")))
+//@   call newFromArgs#* asserts[C19] grpcoff: (flagStr(ctx, "grpc_address") == "" && flagInt(ctx, "grpc_port") <= 0) ==> arg5 == ""
+//@   call newFromArgs#* asserts[C19] profile: (flagStr(ctx, "profile_address") != "" && flagStr(ctx, "profile_address") != "none") ==> arg6 == flagStr(ctx, "profile_address")
+//@   call newFromArgs#* asserts[C19] profiledeprecated: (flagStr(ctx, "profile_address") == "" && flagInt(ctx, "profile_port") > 0) ==> arg6 == joinHP(flagStr(ctx, "profile_host"), itoa(flagInt(ctx, "profile_port")))
+//@   call newFromArgs#* asserts[C19] profileoff: (flagStr(ctx, "profile_address") == "none" || (flagStr(ctx, "profile_address") == "" && flagInt(ctx, "profile_port") <= 0)) ==> arg6 == ""
+//@   call newFromArgs#* asserts[C19] auth: arg7 == flagStr(ctx, "htpasswd_file") && arg10 == flagStr(ctx, "min_tls_version") && arg11 == flagStr(ctx, "tls_ca_file") && arg12 == flagStr(ctx, "tls_cert_file") && arg13 == flagStr(ctx, "tls_key_file") && arg14 == flagBool(ctx, "allow_unauthenticated_reads")
+//@   call newFromArgs#* asserts[C19] uploads: arg8 == flagInt(ctx, "max_queued_uploads") && arg9 == flagInt(ctx, "num_uploaders")
+//@   call newFromArgs#* asserts[C19] timeouts: arg15 == flagDur(ctx, "idle_timeout") && arg28 == flagDur(ctx, "http_read_timeout") && arg29 == flagDur(ctx, "http_write_timeout")
+//@   call newFromArgs#* asserts[C19] switches: arg22 == flagBool(ctx, "disable_http_ac_validation") && arg23 == flagBool(ctx, "disable_grpc_ac_deps_check") && arg24 == flagBool(ctx, "enable_ac_key_instance_mangling") && arg25 == flagBool(ctx, "enable_endpoint_metrics") && arg26 == flagBool(ctx, "http_metrics_prefix") && arg27 == flagBool(ctx, "experimental_remote_asset_api")
+//@   call newFromArgs#* asserts[C19] logging: arg30 == flagStr(ctx, "access_log_level") && arg31 == flagStr(ctx, "log_timezone")
+//@   call newFromArgs#* asserts[C19] limits: arg33 == flagInt64(ctx, "max_blob_size") && arg34 == flagInt64(ctx, "max_proxy_blob_size")
+//@   call newFromArgs#* asserts[C19] backendson: ((arg16 != nil) <==> (flagStr(ctx, "http_proxy.url") != "")) && ((arg17 != nil) <==> (flagStr(ctx, "grpc_proxy.url") != "")) && ((arg18 != nil) <==> (flagStr(ctx, "gcs_proxy.bucket") != "")) && ((arg19 != nil) <==> (flagStr(ctx, "ldap.url") != "")) && ((arg20 != nil) <==> (flagStr(ctx, "s3.bucket") != "")) && ((arg21 != nil) <==> (flagStr(ctx, "azblob.tenant_id") != ""))
+//@   call newFromArgs#* asserts[C19] s3: arg20 != nil ==> (arg20.Bucket == flagStr(ctx, "s3.bucket") && arg20.Endpoint == flagStr(ctx, "s3.endpoint") && arg20.Prefix == flagStr(ctx, "s3.prefix") && arg20.AuthMethod == flagStr(ctx, "s3.auth_method") && arg20.AccessKeyID == flagStr(ctx, "s3.access_key_id") && arg20.SecretAccessKey == flagStr(ctx, "s3.secret_access_key") && arg20.Region == flagStr(ctx, "s3.region") && arg20.DisableSSL == flagBool(ctx, "s3.disable_ssl") && arg20.UpdateTimestamps == flagBool(ctx, "s3.update_timestamps"))
+//@   call newFromArgs#* asserts[C19] ldap: arg19 != nil ==> (arg19.URL == flagStr(ctx, "ldap.url") && arg19.BaseDN == flagStr(ctx, "ldap.base_dn") && arg19.BindUser == flagStr(ctx, "ldap.bind_user") && arg19.BindPassword == flagStr(ctx, "ldap.bind_password") && arg19.UsernameAttribute == flagStr(ctx, "ldap.username_attribute"))
+//@   call newFromArgs#* asserts[C19] urlbackends: (arg16 != nil ==> (arg16.KeyFile == flagStr(ctx, "http_proxy.key_file") && arg16.CertFile == flagStr(ctx, "http_proxy.cert_file") && arg16.CaFile == flagStr(ctx, "http_proxy.ca_file"))) && (arg17 != nil ==> (arg17.KeyFile == flagStr(ctx, "grpc_proxy.key_file") && arg17.CertFile == flagStr(ctx, "grpc_proxy.cert_file") && arg17.CaFile == flagStr(ctx, "grpc_proxy.ca_file")))
+//@   call newFromArgs#* asserts[C19] gcsazure: (arg18 != nil ==> (arg18.Bucket == flagStr(ctx, "gcs_proxy.bucket") && arg18.JSONCredentialsFile == flagStr(ctx, "gcs_proxy.json_credentials_file") && arg18.UseDefaultCredentials == flagBool(ctx, "gcs_proxy.use_default_credentials"))) && (arg21 != nil ==> (arg21.TenantID == flagStr(ctx, "azblob.tenant_id") && arg21.StorageAccount == flagStr(ctx, "azblob.storage_account") && arg21.ContainerName == flagStr(ctx, "azblob.container_name") && arg21.AuthMethod == flagStr(ctx, "azblob.auth_method") && arg21.SharedKey == flagStr(ctx, "azblob.shared_key")))
